@@ -192,6 +192,9 @@ def _enter(stage, x, kind='call'):
     ctx = CTX
     ids = src_ids(x)
     ctx.event(kind, stage, ids, part_path(x))
+    h = getattr(ctx, 'on_call', None)
+    if h is not None:
+        h(stage, ids)       # environment event inside a user function (e.g. memory drops)
     c = ctx.cost(stage, ids)
     if c:
         ctx.sim.work(c)
